@@ -165,7 +165,9 @@ func fromTyped(v any) any {
 		return m["v"].(string)
 	case "time":
 		var t time.Time
-		if ns, ok := m["nsec"]; ok { // generator form with nanoseconds
+		if _, logged := m["ns"].(string); logged {
+			t = absTime(m)
+		} else if ns, ok := m["nsec"]; ok { // generator form with nanoseconds
 			t = time.Unix(1700000000+num(m["sec"]), num(ns)).UTC()
 		} else {
 			t = absTime(m)
@@ -445,50 +447,131 @@ func genEquivalent(v any) any {
 	return c
 }
 
+type wfun struct {
+	name string
+	f    func(d any, o *ojg.Options) string
+}
+
+func toBuf(f func(w *bytes.Buffer) error) string {
+	var b bytes.Buffer
+	if err := f(&b); err != nil {
+		return "ERROR: " + err.Error()
+	}
+	return b.String()
+}
+
+// every writer the statement names, the Write variants and the strict writer behind oj.Marshal
+var writers = []wfun{
+	{"oj.JSON", func(d any, o *ojg.Options) string { return oj.JSON(d, o) }},
+	{"sen.String", func(d any, o *ojg.Options) string { return sen.String(d, o) }},
+	{"pretty.JSON", func(d any, o *ojg.Options) string { return pretty.JSON(d, o) }},
+	{"pretty.SEN", func(d any, o *ojg.Options) string { return pretty.SEN(d, o) }},
+	{"oj.Marshal", func(d any, o *ojg.Options) string {
+		b, err := oj.Marshal(d, o)
+		if err != nil {
+			return "ERROR: " + err.Error()
+		}
+		return string(b)
+	}},
+	{"oj.Write", func(d any, o *ojg.Options) string { return toBuf(func(w *bytes.Buffer) error { return oj.Write(w, d, o) }) }},
+	{"sen.Write", func(d any, o *ojg.Options) string { return toBuf(func(w *bytes.Buffer) error { return sen.Write(w, d, o) }) }},
+	{"pretty.WriteJSON", func(d any, o *ojg.Options) string {
+		return toBuf(func(w *bytes.Buffer) error { return pretty.WriteJSON(w, d, o) })
+	}},
+	{"pretty.WriteSEN", func(d any, o *ojg.Options) string {
+		return toBuf(func(w *bytes.Buffer) error { return pretty.WriteSEN(w, d, o) })
+	}},
+}
+
+type wopt struct {
+	name string
+	o    ojg.Options
+}
+
+// the option matrix of the writer cross-check (Sort always on: member order must not matter)
+var wopts = []wopt{
+	{"sort", ojg.Options{Sort: true}},
+	{"float%.2f", ojg.Options{Sort: true, FloatFormat: "%.2f"}},
+	{"float%e", ojg.Options{Sort: true, FloatFormat: "%e"}},
+	{"omitnil", ojg.Options{Sort: true, OmitNil: true}},
+	{"omitempty", ojg.Options{Sort: true, OmitEmpty: true}},
+	{"indent2", ojg.Options{Sort: true, Indent: 2}},
+	{"tab", ojg.Options{Sort: true, Tab: true}},
+	{"timeRFC3339Nano", ojg.Options{Sort: true, TimeFormat: time.RFC3339Nano}},
+	{"timesecond", ojg.Options{Sort: true, TimeFormat: "second"}},
+	{"timewrap", ojg.Options{Sort: true, TimeWrap: "@"}},
+	{"htmlsafe", ojg.Options{Sort: true, HTMLUnsafe: false}},
+	{"htmlunsafe", ojg.Options{Sort: true, HTMLUnsafe: true}},
+}
+
+func writePair(w wfun, op wopt, s, x any) abs {
+	call := func(d any) string {
+		o := op.o // a fresh copy for every call: writers may keep state in the options
+		return w.f(d, &o)
+	}
+	return abs{"w": w.name, "opt": op.name, "s": safeCall(call, s), "x": safeCall(call, x)}
+}
+
 func writeOne(c convCase) abs {
+	tree := widen32(c.Tree)
+	// the matrix on the whole tree first; a (writer, option set) that disagrees there is also run on every subtree so
+	// that the deepest disagreeing node names the locus
+	var extra [][2]int
+	root := []any{}
+	{
+		s := fromTyped(tree)
+		x := fromTyped(genEquivalent(tree))
+		for wi, w := range writers {
+			for oi, op := range wopts {
+				if oi == 0 && wi < 5 {
+					continue // the default option set of the first five writers is run on every subtree below
+				}
+				p := writePair(w, op, s, x)
+				root = append(root, p)
+				if p["s"] != p["x"] {
+					extra = append(extra, [2]int{wi, oi})
+				}
+			}
+		}
+	}
 	nodes := []any{}
-	var walk func(v any)
-	walk = func(v any) {
+	var walk func(v any, isRoot bool)
+	walk = func(v any, isRoot bool) {
 		m := v.(abs)
 		if t := m["t"]; t == "arr" || t == "obj" {
 			for _, e := range m["v"].([]any) {
-				walk(e)
+				walk(e, false)
 			}
 		}
-		s := fromTyped(typedOf(v))
-		x := fromTyped(genEquivalent(typedOf(v)))
+		s := fromTyped(v)
+		x := fromTyped(genEquivalent(v))
 		outs := []any{}
-		for _, w := range []struct {
-			name string
-			f    func(any) string
-		}{
-			{"oj.JSON", func(d any) string { return oj.JSON(d, &ojg.Options{Sort: true}) }},
-			{"sen.String", func(d any) string { return sen.String(d, &ojg.Options{Sort: true}) }},
-			{"pretty.JSON", func(d any) string { return pretty.JSON(d, &ojg.Options{Sort: true}) }},
-			{"oj.Marshal", func(d any) string {
-				b, err := oj.Marshal(d, &ojg.Options{Sort: true})
-				if err != nil {
-					return "ERROR: " + err.Error()
-				}
-				return string(b)
-			}},
-		} {
-			outs = append(outs, abs{"w": w.name, "s": safeCall(w.f, s), "x": safeCall(w.f, x)})
+		for _, w := range writers[:5] {
+			outs = append(outs, writePair(w, wopts[0], s, x))
 			if w.name == "oj.Marshal" {
 				// the strict writer also on the round trip through the other form
+				o := wopts[0].o
+				f := func(d any) string { return w.f(d, &o) }
 				rt := safeCall(func(d any) string {
 					g := alt.Generify(d, keepOpt)
 					if g == nil {
-						return w.f(nil)
+						return f(nil)
 					}
-					return w.f(g.Simplify())
+					return f(g.Simplify())
 				}, s)
-				outs = append(outs, abs{"w": "oj.Marshal(Simplify(Generify))", "s": safeCall(w.f, s), "x": rt})
+				outs = append(outs, abs{"w": "oj.Marshal(Simplify(Generify))", "opt": "sort", "s": safeCall(f, s), "x": rt})
+			}
+		}
+		if isRoot {
+			outs = append(outs, root...)
+		} else {
+			for _, e := range extra {
+				outs = append(outs, writePair(writers[e[0]], wopts[e[1]], s, x))
 			}
 		}
 		nodes = append(nodes, abs{"g": fmt.Sprintf("%T", s), "outs": outs})
 	}
-	walk(widen32(c.Tree))
+	walk(tree, true)
 	return abs{"ev": "write", "nodes": nodes}
 }
 
@@ -663,7 +746,7 @@ func (g *cgen) leaf() abs {
 		f := []float32{0, 0.5, 0.1, 1.0000001, 3.4e38, 16777217, -1.1}[g.r.Intn(7)]
 		return abs{"t": "flt", "s": strconv.FormatFloat(float64(f), 'g', -1, 64), "g": "float32"}
 	case 13:
-		return abs{"t": "str", "v": []string{"", "x", "a b", "null", "1", "q\"uote", "tab\there"}[g.r.Intn(7)], "g": "string"}
+		return abs{"t": "str", "v": []string{"", "x", "a b", "null", "1", "q\"uote", "tab\there", "<a&b>"}[g.r.Intn(8)], "g": "string"}
 	case 14:
 		return abs{"t": "time", "sec": g.r.Intn(100000), "nsec": pick(0, 1, 999999999, 500), "g": "time.Time"}
 	case 15:
@@ -744,11 +827,11 @@ func (g *cgen) jsonText(depth int) string {
 		b.WriteString("[")
 		for i := 0; i < n; i++ {
 			if i > 0 {
-				b.WriteString([]string{",", ", ", " ,\n"}[g.r.Intn(3)])
+				b.WriteString([]string{",", ", ", " ,\n", "\r,", "\t,", "\r\n,\t"}[g.r.Intn(6)])
 			}
 			b.WriteString(g.jsonText(depth - 1))
 		}
-		b.WriteString("]")
+		b.WriteString([]string{"", "", "\r", "\t", "\r\n", " "}[g.r.Intn(6)] + "]")
 	} else {
 		b.WriteString("{")
 		used := map[string]bool{}
@@ -763,7 +846,7 @@ func (g *cgen) jsonText(depth int) string {
 				b.WriteString(",")
 			}
 			first = false
-			b.WriteString(strconv.Quote(k) + []string{":", ": "}[g.r.Intn(2)] + g.jsonText(depth-1))
+			b.WriteString(strconv.Quote(k) + []string{":", ": ", ":\t", ":\r"}[g.r.Intn(4)] + g.jsonText(depth-1) + []string{"", "", "\r", "\t"}[g.r.Intn(4)])
 		}
 		b.WriteString("}")
 	}
@@ -885,7 +968,7 @@ func convRand(args []string) {
 			b.WriteString("[")
 			for k, m := 0, 3+g.r.Intn(5); k < m; k++ {
 				if k > 0 {
-					b.WriteString(",")
+					b.WriteString([]string{",", "\r,", "\t,\r\n", " ,"}[g.r.Intn(4)])
 				}
 				b.WriteString(g.floatLit())
 			}
